@@ -119,6 +119,8 @@ def format_value(it, v, fmt, conv):
         return v
     if v is None:
         return 'None'
+    if isinstance(v, (list, tuple)) and all(isinstance(x, (int, str, bool)) and not is_sym(x) for x in v) and not fmt:
+        return str(v) if conv in (None, -1, 115) else repr(v)
     return I.FStr([('val', v, fmt or '')])
 
 
@@ -200,6 +202,12 @@ def b_len(it, x):
         return it.call(x.cls.find('__len__'), [x])
     if isinstance(x, Obj) and x.tag == 'iter':
         raise PyExc('TypeError', 'len of generator')
+    if isinstance(x, Obj) and x.tag in ('b64', 'packed'):
+        n_ = it.ctx.fresh('nbytes', 'int')
+        it.ctx.assume(n_ >= 0)
+        return n_
+    if isinstance(x, bytes):
+        return len(x)
     if isinstance(x, I.FStr):
         raise Unsupported('len of symbolic string')
     raise PyExc('TypeError', f'object of type {type(x).__name__} has no len()')
@@ -526,6 +534,18 @@ def _file_attr(it, o, attr):
 
 
 OBJ_ATTR['file'] = _file_attr
+
+
+def _path_attr(it, o, attr):
+    I = _interp_types()
+    if attr == 'parent':
+        return Obj(None, {'path': o.fields['path']}, tag='path')
+    if attr == 'mkdir':
+        return I.Builtin('mkdir', lambda *a, **k: None)
+    return NotImplemented
+
+
+OBJ_ATTR['path'] = _path_attr
 
 
 # ------------------------------------------------------------------------------------------------ attributes of values
